@@ -455,7 +455,7 @@ Qed.
    is_number accepts (a numeric text satisfies both, see Refuted/C15_partition.v) *)
 Definition part_ok (x : pyval) : Prop :=
   match x with
-  | VNone | VBool _ | VInt _ => True
+  | VNone | VBool _ | VInt _ | VFloat _ => True
   | VStr s => is_num (VStr s) = Ok false
   | _ => False
   end.
@@ -475,6 +475,35 @@ Proof. num_run. reflexivity. Qed.
 Lemma to_num_bool c : to_num (VBool c) = Ok (VBool c).
 Proof. num_run. reflexivity. Qed.
 
+Lemma is_num_float q : is_num (VFloat q) = Ok true.
+Proof. num_run. reflexivity. Qed.
+Lemma to_num_float q :
+  to_num (VFloat q) = Ok (if q_eqb (inject_Z (q_trunc q)) q then VInt (q_trunc q) else VFloat q).
+Proof.
+  num_run. destruct (q_eqb (inject_Z (q_trunc q)) q); num_run; reflexivity.
+Qed.
+
+Lemma qeqb_int t q m : q_eqb (inject_Z t) q = true -> (t =? m) = q_eqb q (inject_Z m).
+Proof.
+  unfold q_eqb. intros H. apply Qeq_bool_iff in H. apply eq_true_iff_eq.
+  rewrite Z.eqb_eq, Qeq_bool_iff, <- H. split.
+  - intros ->. reflexivity.
+  - intros E. unfold Qeq, inject_Z in E. cbn in E. lia.
+Qed.
+Lemma qeqb_float t q r : q_eqb (inject_Z t) q = true -> q_eqb (inject_Z t) r = q_eqb q r.
+Proof.
+  unfold q_eqb. intros H. apply Qeq_bool_iff in H. apply eq_true_iff_eq.
+  rewrite !Qeq_bool_iff, H. reflexivity.
+Qed.
+(* an integral float compares like its integer *)
+Lemma py_eq_integral t q n : q_eqb (inject_Z t) q = true -> py_eq (VInt t) n = py_eq (VFloat q) n.
+Proof.
+  intros H. destruct n; cbn [py_eq as_num num_q]; try reflexivity.
+  - apply qeqb_int. exact H.
+  - apply qeqb_int. exact H.
+  - apply qeqb_float. exact H.
+Qed.
+
 Lemma partition_num n x b : part_ok x ->
   sat (CNumEq n) x = Ok b -> sat (COpNum ONe n) x = Ok (negb b).
 Proof.
@@ -484,6 +513,9 @@ Proof.
     intros H. injection H as <-. reflexivity.
   - rewrite is_num_int. cbn [bind]. rewrite to_num_int. cbn [bind cmp_cop].
     intros H. injection H as <-. reflexivity.
+  - rewrite is_num_float. cbn [bind]. rewrite to_num_float. cbn [bind cmp_cop].
+    intros H. injection H as <-. destruct (q_eqb (inject_Z (q_trunc q)) q) eqn:E; [|reflexivity].
+    rewrite (py_eq_integral _ q n E). reflexivity.
   - rewrite Hp. cbn [bind]. intros H. injection H as <-. reflexivity.
 Qed.
 
@@ -769,3 +801,23 @@ Proof.
   2:{ symmetry. apply Z.eqb_neq. unfold zlen. destruct cells; [congruence|]. cbn [length]. lia. }
   reflexivity.
 Qed.
+
+(* ------------------------------------------------ non-vacuity (tests) *)
+Definition ex_rng : pyval :=
+  VTuple [VTuple [VStr [97; 112; 112; 108; 101]; VInt 1]; VTuple [VNone; VFloat (5 # 2)]].
+(* COUNTIFS(rng, "<>1", rng, ">a") : only "apple" *)
+Example ex_handle_ifs :
+  handle_ifs [ex_rng; VStr [60; 62; 49]; ex_rng; VStr [62; 97]] None = Ok (inr [(0, 0)]).
+Proof. vm_compute. reflexivity. Qed.
+Example ex_sumifs : sumifs ex_rng [ex_rng; VStr [62; 48]] = Ok (VFloat (7 # 2)).
+Proof. vm_compute. reflexivity. Qed.
+Example ex_averageifs : averageifs ex_rng [ex_rng; VStr [62; 48]] = Ok (VFloat (7 # 4)).
+Proof. vm_compute. reflexivity. Qed.
+Example ex_plain_operand : plain_operand [97; 98].
+Proof. repeat split; vm_compute; reflexivity. Qed.
+Example ex_partition_hyp :
+  is_num (VStr [97; 98]) = Ok false /\ has_wild [97; 98] = false /\ (exists w, lower_str [97; 98] = Ok w).
+Proof. repeat split; try (vm_compute; reflexivity). exists [97; 98]. vm_compute. reflexivity. Qed.
+Example ex_plain_operand_num : plain_operand [49; 48] /\ is_num (VStr [49; 48]) = Ok true
+  /\ to_num (VStr [49; 48]) = Ok (VInt 10).
+Proof. repeat split; vm_compute; reflexivity. Qed.
